@@ -30,9 +30,10 @@ from .util import call_arg, is_none_test, split_cond
 
 
 class V:
-    __slots__ = ("sym", "at", "kinds", "tup", "none", "func", "src")
+    __slots__ = ("sym", "at", "kinds", "tup", "none", "func", "src", "alts")
 
     def __init__(self, sym=None, at=frozenset(), kinds=frozenset(), tup=None, none=None, func=None, src=""):
+        self.alts = None  # distinct per-path results of an inlined call (the caller forks on them when it binds the result)
         self.sym = sym
         self.at = frozenset(at)
         self.kinds = frozenset(kinds)
@@ -149,17 +150,18 @@ class Interp:
             visits[nid] = v + 1
             env = dict(env)
             events = list(events)
-            self._transfer(fi, node, env, events, facts, depth)
-            for (t, lab) in cfg.succ[nid]:
-                if lab and lab[0] == "exc":
-                    continue
-                nf = facts
-                if lab and lab[0] == "cond":
-                    feas = self._feasible(fi, lab[1], lab[2], env)
-                    if feas is False:
+            forks = self._transfer(fi, node, env, events, facts, depth) or [(env, events)]
+            for (env, events) in forks:
+                for (t, lab) in cfg.succ[nid]:
+                    if lab and lab[0] == "exc":
                         continue
-                    nf = facts + [(lab[1], lab[2], {n.id: env.get(n.id) for n in ast.walk(lab[1]) if isinstance(n, ast.Name) and n.id in env}, self._eval_cond_operands(fi, lab[1], env, depth))]
-                stack.append((t, env, visits, events, nf))
+                    nf = facts
+                    if lab and lab[0] == "cond":
+                        feas = self._feasible(fi, lab[1], lab[2], env)
+                        if feas is False:
+                            continue
+                        nf = facts + [(lab[1], lab[2], {n.id: env.get(n.id) for n in ast.walk(lab[1]) if isinstance(n, ast.Name) and n.id in env}, self._eval_cond_operands(fi, lab[1], env, depth))]
+                    stack.append((t, env, visits, events, nf))
         return results
 
     def _eval_cond_operands(self, fi, test, env, depth):
@@ -187,6 +189,15 @@ class Interp:
         if node.kind == "stmt":
             if isinstance(s, ast.Assign):
                 val = self.eval(fi, s.value, env, events, depth, node, facts)
+                if val.alts and isinstance(s.value, ast.Call):
+                    # the callee returns different (correlated) results on different paths: continue once per result
+                    out = []
+                    for alt in val.alts:
+                        e2 = dict(env)
+                        for t in s.targets:
+                            self._bind(t, alt, e2)
+                        out.append((e2, list(events)))
+                    return out
                 for t in s.targets:
                     self._bind(t, val, env)
             elif isinstance(s, ast.AnnAssign) and s.value is not None:
@@ -353,7 +364,15 @@ class Interp:
                     k0 = vals[0].key()
                     if all(v.key() == k0 for v in vals):
                         return vals[0]
-                    return self._join(vals)
+                    j = self._join(vals)
+                    # results that were computed at different temperatures are kept apart (the caller forks on
+                    # them); results at the same temperature are joined as before
+                    groups: Dict[FrozenSet, List[V]] = {}
+                    for v in vals:
+                        groups.setdefault(all_at(v), []).append(v)
+                    if 1 < len(groups) <= 8:
+                        j.alts = [g[0] if all(x.key() == g[0].key() for x in g) else self._join(g) for g in groups.values()]
+                    return j
         at = frozenset()
         kinds = frozenset()
         for v in argvals + list(kwvals.values()):
